@@ -10,6 +10,7 @@
 //	del <ver> <hash>                          -> ok|notfound|onlytop|version|err:...
 //	getv <k> <ver>                            -> <v>|notfound|version|err:...
 //	trash <ver>                               -> ok
+//	setver <ver> <hash>                       -> ok   (MVCCHelper.SetVersion: lets a chain start above 0)
 //	maxv                                      -> <n>|notfound|err:...
 //	dump                                      -> <datakey>=<v>,... (whole ".-mvcc-.d." region, ascending)
 //	sget <hash|-> <k>                         -> StateDB.Get with MVCC enabled at the version of <hash>
@@ -554,6 +555,18 @@ func (e *env) opIList(line string) {
 	out.Stat("ilist_checked", 1)
 }
 
+// setver: MVCCHelper.SetVersion(hash, ver) — only the hash<->version records, no data.
+func (e *env) opSetVer(line string, ver int64, hash []byte) {
+	res := gen.Guard(func() string { return errName(e.m.SetVersion(hash, ver)) })
+	out.Op(line, res)
+	out.Stat("setver", 1)
+	if res == "ok" {
+		e.mutate()
+		e.snaps = nil
+		e.hashVer[string(hash)] = ver
+	}
+}
+
 func (e *env) opMaxV(line string) {
 	res := gen.Guard(func() string {
 		v, err := e.m.GetMaxVersion()
@@ -708,6 +721,18 @@ func exec(line string) {
 			return
 		}
 		e.opTrash(line, ver)
+	case "setver":
+		if len(f) != 3 {
+			bad()
+			return
+		}
+		ver, ok := parseVer(f[1])
+		hash, ok2 := unhx(f[2])
+		if !ok || !ok2 || len(hash) < 16 {
+			bad()
+			return
+		}
+		e.opSetVer(line, ver, hash)
 	case "maxv":
 		if len(f) != 1 {
 			bad()
@@ -740,6 +765,8 @@ func exec(line string) {
 // ---------------------------------------------------------------------------------- generator
 
 type chain struct {
+	base   int64 // first version of the chain (reads start one below it)
+	always []byte // a key every version writes (nil: none)
 	iter   bool // drive MVCCIter (iadd / idel / ilist) instead of the plain helper
 	r      *gen.Rand
 	keys   [][]byte
@@ -831,6 +858,11 @@ func (c *chain) emitAdd(ver int64, tombs bool) {
 	if ver > 0 {
 		prev = hx(c.hashes[ver-1])
 	}
+	if c.always != nil {
+		// the ordinary key is written by every version (both sides of a decimal boundary and on it)
+		parts = append(parts, hx(c.always)+"="+hx(c.value(c.always, ver, false)))
+		kvs = strings.Join(parts, ",")
+	}
 	if c.iter {
 		exec(fmt.Sprintf("iadd %d %s %s %s", ver, hx(h), prev, kvs))
 		exec("ilist")
@@ -854,7 +886,11 @@ func (c *chain) emitDelTop() {
 
 func (c *chain) readAll(maxv int64) {
 	for _, k := range c.keys {
-		for v := int64(0); v <= maxv; v++ {
+		from := c.base - 1
+		if from < 0 {
+			from = 0
+		}
+		for v := from; v <= maxv; v++ {
 			exec(fmt.Sprintf("getv %s %d", hx(k), v))
 		}
 	}
@@ -962,6 +998,85 @@ func iterEpisode(r *gen.Rand, backend string, sepFree bool) {
 	out.Stat("iter_episodes", 1)
 }
 
+// decimal boundaries of the version suffix: chains that start at a base version just below a power
+// of ten (MVCCHelper.SetVersion provides the predecessor record) or simply run long, an ordinary
+// key written by every version, reads at every version around the boundary, removals back across
+// it (each checked for restoration), re-adding, and collections at the cuts around it.
+var boundaryBases = []int64{0, 7, 95, 98, 995, 9997, 99998, 999999997, 99999999999999997, 999999999999999998}
+
+func boundaryEpisode(r *gen.Rand, backend string, idx int) {
+	base := boundaryBases[idx%len(boundaryBases)]
+	n := int64(r.Range(6, 14)) // versions base .. base+n-1 cross the next power of ten
+	if base == 0 {
+		n = int64(r.Range(12, 24))
+		if idx%3 == 0 {
+			n = int64(r.Range(101, 130))
+		}
+	}
+	ordinary := [][]byte{[]byte("k"), []byte("acc"), []byte("mavl-coins-bty-exec-1x")}[r.Intn(3)]
+	c := &chain{r: r, hashes: map[int64][]byte{}, top: base - 1, base: base, always: ordinary}
+	c.keys = [][]byte{ordinary, []byte("z" + string(ordinary)), []byte("b")}
+	exec("reset " + backend)
+	if base > 0 {
+		c.nhash++
+		h := hashN(r, c.nhash)
+		exec(fmt.Sprintf("setver %d %s", base-1, hx(h)))
+		c.hashes[base-1] = h
+	}
+	for c.top+1 < base+n {
+		c.emitAdd(c.top+1, false)
+	}
+	top := c.top
+	if n <= 30 {
+		c.readAll(top + 1)
+	} else {
+		// long chain: every version for the ordinary key only
+		for v := int64(0); v <= top+1; v++ {
+			exec(fmt.Sprintf("getv %s %d", hx(ordinary), v))
+		}
+	}
+	exec("maxv")
+	// back across the boundary, reads after every removal (restore predicate), and forward again
+	back := int64(r.Range(3, int(n)-1))
+	if back > 25 {
+		back = 25
+	}
+	for i := int64(0); i < back; i++ {
+		c.emitDelTop()
+		if lastRes != "ok" {
+			break
+		}
+		for v := c.top - 3; v <= c.top+2; v++ {
+			if v >= 0 {
+				exec(fmt.Sprintf("getv %s %d", hx(ordinary), v))
+			}
+		}
+	}
+	for c.top < top {
+		c.emitAdd(c.top+1, false)
+	}
+	for v := top - back - 2; v <= top+1; v++ {
+		if v >= 0 {
+			exec(fmt.Sprintf("getv %s %d", hx(ordinary), v))
+		}
+	}
+	exec("dump")
+	// collections at increasing cuts around the boundary
+	cut := base + int64(r.Range(0, 3))
+	for i := 0; i < 4 && cut <= top; i++ {
+		exec(fmt.Sprintf("trash %d", cut))
+		for v := cut - 1; v <= top+1; v++ {
+			if v >= 0 {
+				exec(fmt.Sprintf("getv %s %d", hx(ordinary), v))
+			}
+		}
+		cut += int64(r.Range(1, 4))
+	}
+	exec("dump")
+	out.Stat("boundary_episodes", 1)
+	out.Stat(fmt.Sprintf("boundary_base_%d", base), 1)
+}
+
 func everyCut(r *gen.Rand, seed uint64, backend string) {
 	probe := gen.New(seed)
 	c0 := &chain{r: probe, hashes: map[int64][]byte{}, top: -1}
@@ -1013,6 +1128,13 @@ func main() {
 	}
 	for i := 0; i < gen.Scale(25, 600); i++ {
 		everyCut(r, r.U64(), "mem")
+	}
+	for i := 0; i < gen.Scale(40, 1500); i++ {
+		backend := "mem"
+		if i%5 == 0 {
+			backend = "level"
+		}
+		boundaryEpisode(r, backend, i)
 	}
 	stateDBRuns(r, gen.Scale(20, 400))
 	for i := 0; i < gen.Scale(80, 2000); i++ {
